@@ -634,9 +634,18 @@ func sessionChargingReservation(
 				}
 			}
 
+			// The rating function may only allow the units that the money reserved
+			// for this rating group buys: nothing when no reservation is left
+			monetaryQuota := requestedQuota
+			if reserved := ue.ReservedQuota[rg]; reserved <= 0 {
+				monetaryQuota = 0
+			} else if uint64(reserved) < requestedQuota {
+				monetaryQuota = uint64(reserved)
+			}
+
 			sur.ServiceRating = &charging_datatype.ServiceRating{
 				ServiceIdentifier: datatype.Unsigned32(rg),
-				MonetaryQuota:     datatype.Unsigned32(requestedQuota),
+				MonetaryQuota:     datatype.Unsigned32(monetaryQuota),
 				RequestSubType:    charging_datatype.REQ_SUBTYPE_RESERVE,
 			}
 
